@@ -734,6 +734,20 @@ func (b *builder) genDecls() {
 					id := 0
 					for k := 0; k < ne; k++ {
 						a := excs[rapid.IntRange(0, len(excs)-1).Draw(t, "exc")]
+						if k > 0 {
+							// prefer the twin (same name, other file) of an exception already listed
+							var tw []avail
+							for _, e := range excs {
+								for _, prev := range m.Throws {
+									if e.name == prev.Type.Name && e.file != prev.Type.File {
+										tw = append(tw, e)
+									}
+								}
+							}
+							if len(tw) > 0 && rapid.Bool().Draw(t, "exc.twin?") {
+								a = tw[rapid.IntRange(0, len(tw)-1).Draw(t, "exc.twin")]
+							}
+						}
 						// (the same exception type may be declared twice; ids in any order, with gaps)
 						if rapid.IntRange(0, 3).Draw(t, "excid.any") == 0 {
 							id = rapid.IntRange(1, 9).Draw(t, "excid.free")
